@@ -91,10 +91,12 @@ def gen_queries(rng, pairs, tier):
             qs.append(["tags"])
         elif r < 0.90:
             qs.append(["write"])
-        elif r < 0.95:
+        elif r < 0.94:
             qs.append(["merge_base"])
-        else:
+        elif r < 0.98:
             qs.append(["merge_over"])
+        else:
+            qs.append(["merge_self"])       # the object in both roles of one merge
     return qs
 
 
@@ -118,6 +120,8 @@ def q_exec(q):
         return [{"op": "write", "k": 0, "dir": "$ROOT/out", "name": "q.conf"}]
     if o == "merge_base":
         return [{"op": "merge", "o": 5, "usr": 0, "etc": 1}, {"op": "dump", "k": 5, "ext": False}, {"op": "free", "k": 5}]
+    if o == "merge_self":
+        return [{"op": "merge", "o": 5, "usr": 0, "etc": 0}, {"op": "dump", "k": 5, "ext": False}, {"op": "free", "k": 5}]
     if o == "merge_over":
         return [{"op": "merge", "o": 5, "usr": 1, "etc": 0}, {"op": "dump", "k": 5, "ext": False}, {"op": "free", "k": 5}]
     raise ValueError(o)
